@@ -589,7 +589,17 @@ func cliCase(c *run.Ctx, cs Case) {
 	unreadable := r.Intn(3) == 0
 	files := append([]string(nil), paths...)
 	if unreadable {
-		files = append(files[:len(files)/2:len(files)/2], append([]string{filepath.Join(dir, "does-not-exist")}, files[len(files)/2:]...)...)
+		// 1, --readers or --readers+1 paths that cannot be opened, anywhere in the argument list (also all in
+		// front): every failed open must give its reader slot back, or the inputs behind them are never read
+		k := []int{1, readers, readers + 1}[r.Intn(3)]
+		for j := 0; j < k; j++ {
+			at := 0
+			if r.Intn(3) > 0 {
+				at = r.Intn(len(files) + 1)
+			}
+			files = append(files[:at:at], append([]string{filepath.Join(dir, fmt.Sprintf("does-not-exist-%d", j))}, files[at:]...)...)
+		}
+		c.Count("cli_unopenable_paths", int64(k))
 	}
 	args = append(args, files...)
 	// stretch the run over 0.4-1.5 s (several 100 ms render ticks); sleeps sit between critical sections
@@ -619,7 +629,7 @@ func cliCase(c *run.Ctx, cs Case) {
 	var werr error
 	select {
 	case werr = <-done:
-	case <-time.After(200 * time.Second):
+	case <-time.After(90 * time.Second):
 		cmd.Process.Signal(syscall.SIGQUIT)
 		select {
 		case <-done:
@@ -629,9 +639,9 @@ func cliCase(c *run.Ctx, cs Case) {
 		}
 		dump := stderr.String()
 		if stuckDump(dump) {
-			c.Violation("cli-no-termination:"+command[0], fmt.Sprintf("rare %s did not end 200 s after its input was fully available; every rare goroutine in the SIGQUIT dump is blocked on a channel or lock:\n%s", command[0], tailStr(dump, 4000)), cs)
+			c.Violation("cli-no-termination:"+command[0], fmt.Sprintf("rare %s did not end 90 s after its input was fully available; every rare goroutine in the SIGQUIT dump is blocked on a channel or lock:\n%s", command[0], tailStr(dump, 4000)), cs)
 		} else {
-			c.Inconclusive("rare " + command[0] + " exceeded 200 s without stuck-state evidence")
+			c.Inconclusive("rare " + command[0] + " exceeded 90 s without stuck-state evidence")
 		}
 		return
 	}
